@@ -86,7 +86,12 @@ def run(ctx, scope="C16"):
     ctx.traces += res["evaluations"]
     for s in res["samples"][:1]:
         ctx.sample({"addwin": s})
-    info = {"behaviours_exported": exported, "replayed": res["evaluations"], "steps": ex.get("steps"),
+    if ex.get("behaviours_generator_not_bound"):
+        # the tree does not draw its identifiers from math/rand's process-wide source (or draws other values first):
+        # collisions cannot be forced; what C16 states is still judged on the identifiers the code hands out
+        ctx.assumptions.append("addwin: in %d behaviours the first identifier was not the first value of the re-seeded generator: "
+                               "colliding draws could not be forced in this run" % ex["behaviours_generator_not_bound"])
+    info = {"behaviours_exported": exported, "behaviours_generator_not_bound": ex.get("behaviours_generator_not_bound", 0), "replayed": res["evaluations"], "steps": ex.get("steps"),
             "behaviours_with_a_colliding_draw": ex.get("behaviours_with_a_colliding_draw"), "fail_count": res.get("fail_count")}
 
     if wide is not None:
@@ -132,7 +137,8 @@ def run(ctx, scope="C16"):
                     break
         sres = ctx.harness_json("registry", ["addwin", st, "1"], timeout=900)
         fc = sres.get("fail_count") or {}
-        if built != 4 or sum(fc.values()) != 4:
+        unbound = bool(ex.get("behaviours_generator_not_bound"))       # then a draw cannot be compared
+        if built != 4 or sum(fc.values()) != (3 if unbound else 4):
             raise Infra("addwin replay self-test: corrupted expectations not all detected (%d built): %s" % (built, fc))
         info["selftest"] = fc
 
